@@ -136,6 +136,14 @@ type replayDriver struct {
 	Body    string
 	Flags   []string // extra go test flags (e.g. -race)
 	Confirm string   // regexp over the test output that confirms the violation (default: REPLAY-CONFIRMED)
+	// source rewrites applied to an overlay copy of a repository file for this replay only (yield points for schedules):
+	// "// rewrite: <file>" followed by pairs "// rewrite-old: <text>" / "// rewrite-new: <text>" (\n and \t escapes)
+	Rewrites []srcRewrite
+}
+
+type srcRewrite struct {
+	File     string
+	Old, New string
 }
 
 func loadDriver(verif, name string) (*replayDriver, error) {
@@ -155,6 +163,21 @@ func loadDriver(verif, name string) (*replayDriver, error) {
 	}
 	if m := regexp.MustCompile(`(?m)^// confirm-regex: *(.+)$`).FindStringSubmatch(text); m != nil {
 		d.Confirm = strings.TrimSpace(m[1])
+	}
+	curFile := ""
+	unesc := strings.NewReplacer(`\n`, "\n", `\t`, "\t")
+	var pendingOld *string
+	for _, l := range strings.Split(text, "\n") {
+		switch {
+		case strings.HasPrefix(l, "// rewrite: "):
+			curFile = strings.TrimSpace(strings.TrimPrefix(l, "// rewrite: "))
+		case strings.HasPrefix(l, "// rewrite-old: "):
+			o := unesc.Replace(strings.TrimPrefix(l, "// rewrite-old: "))
+			pendingOld = &o
+		case strings.HasPrefix(l, "// rewrite-new: ") && pendingOld != nil:
+			d.Rewrites = append(d.Rewrites, srcRewrite{File: curFile, Old: *pendingOld, New: unesc.Replace(strings.TrimPrefix(l, "// rewrite-new: "))})
+			pendingOld = nil
+		}
 	}
 	d.Body = text
 	return d, nil
@@ -244,7 +267,7 @@ func tryReplay(prog *Program, ps *PropSpec, o *Obligation, repo, verif string) (
 	if missing != "" {
 		return false, "model values not convertible:" + missing
 	}
-	out, confirmed := runOverlayTest(repo, drv.Pkg, buf.String(), drv.Flags, drv.Confirm)
+	out, confirmed := runOverlayTestRW(repo, drv.Pkg, buf.String(), drv.Flags, drv.Confirm, drv.Rewrites)
 	o.Model += "\n--- replay test (" + driverName + ") ---\n" + buf.String() + "\n--- replay output ---\n" + out + "\n"
 	if confirmed {
 		return true, "replayed on the real code: violation confirmed"
@@ -254,16 +277,42 @@ func tryReplay(prog *Program, ps *PropSpec, o *Obligation, repo, verif string) (
 
 // runOverlayTest injects testSrc as a _test.go file of package dir pkg and runs TestVerifReplay.
 func runOverlayTest(repo, pkg, testSrc string, flags []string, confirm string) (string, bool) {
+	return runOverlayTestRW(repo, pkg, testSrc, flags, confirm, nil)
+}
+
+func runOverlayTestRW(repo, pkg, testSrc string, flags []string, confirm string, rewrites []srcRewrite) (string, bool) {
 	tmp, err := os.MkdirTemp("", "govc-replay-")
 	if err != nil {
 		return err.Error(), false
 	}
 	defer os.RemoveAll(tmp)
+	rewritten := map[string]string{}
+	for i, rw := range rewrites {
+		src, ok := rewritten[rw.File]
+		if !ok {
+			data, err := os.ReadFile(filepath.Join(repo, rw.File))
+			if err != nil {
+				return "rewrite: " + err.Error(), false
+			}
+			src = string(data)
+		}
+		if !strings.Contains(src, rw.Old) {
+			return fmt.Sprintf("rewrite %d: the text to instrument was not found in %s (the code changed shape; no schedule replay possible)", i+1, rw.File), false
+		}
+		rewritten[rw.File] = strings.Replace(src, rw.Old, rw.New, 1)
+	}
 	testFile := filepath.Join(tmp, "zz_verif_replay_test.go")
 	if err := os.WriteFile(testFile, []byte(testSrc), 0o644); err != nil {
 		return err.Error(), false
 	}
 	ov := map[string]map[string]string{"Replace": {filepath.Join(repo, pkg, "zz_verif_replay_test.go"): testFile}}
+	k := 0
+	for f, src := range rewritten {
+		k++
+		rf := filepath.Join(tmp, fmt.Sprintf("rewritten%d.go", k))
+		os.WriteFile(rf, []byte(src), 0o644)
+		ov["Replace"][filepath.Join(repo, f)] = rf
+	}
 	ovData, _ := json.Marshal(ov)
 	ovFile := filepath.Join(tmp, "overlay.json")
 	os.WriteFile(ovFile, ovData, 0o644)
